@@ -55,6 +55,8 @@ func runC03(c *Ctx) {
 	ruleBuffers(c, a, "NOALIAS")
 	ruleReplyAddr(c, a)
 	ruleSearch(c, "SEARCH", 2)
+	ruleSearchReturnsTried(c, "SEARCH")
+	ruleKeyNotCachedBySecret(c, "BIND")
 	ruleSnapshot(c) // "some key of the list, whatever the list order": the snapshot searched holds every key
 	ruleUpdate(c)   // "a configured key": marking a key used never puts a removed key back into the list
 	ruleBufSize(c, a, "BUFSIZE")
